@@ -14,7 +14,7 @@ RULE = ("first-fit, FFD, best-fit, BFD, bin-completion on generated classes (ran
         "BinCount; non-trivial = result has >= 2 bins; distinct on (algorithm, binsize, value sequence); search_needed counts bin-completion "
         "instances where best-fit-decreasing misses the volume bound")
 ASSUMPTIONS = ["values 0 <= v <= binsize; ints or exactly representable dyadic fractions", "bin-completion driven with list/array presentations here (named items: C07 / KF-bc-names)"]
-FLOORS = {"quick": {"distinct_nontrivial": 5000, "bc_search_needed": 100}, "thorough": {"distinct_nontrivial": 50000, "bc_search_needed": 1000}}
+FLOORS = {"quick": {"distinct_nontrivial": 5000, "bc_search_needed": 100}, "thorough": {"distinct_nontrivial": 25000, "bc_search_needed": 500}}
 
 
 def plan(tier, seed):
